@@ -21,7 +21,7 @@ EXPLANATION = (
     "LightNodeMixin.__slots__ lists them and the dict-based node classes declare no __slots__, so default "
     "pickling/copying (and a __getstate__ copying self.__dict__) captures exactly the links. P3 no id() value is stored in "
     "state that outlives a call of a node class (only in containers created by that call): ids name the original "
-    "objects after a copy. Isomorphism, "
+    "objects after a copy. P4 no module-level mutable object is stored in a link field. Isomorphism, "
     "independence and protocol coverage of the copy are NOT decided (behaviour of pickle/copy's C code)."
 )
 ASSUMPTIONS = ["pickle/copy probe __setstate__/__reduce_ex__/__deepcopy__ via getattr on an instance whose __dict__ is still empty",
@@ -152,6 +152,25 @@ def run(ctx):
                     ctx.viol("P3", f, node, "an id() value is stored in `%s`, which is not a container created by this call: if it "
                              "outlives the call (link field, instance attribute) a pickled/deep-copied tree carries the ids of the "
                              "original nodes and breaks on the first change" % norm(cont))
+    # ---- P4 a node's state holds only objects of its own: no module- or class-level mutable object is stored in (or
+    # compared by identity with) a link field - after a copy the field holds a COPY of that object, so `is` tests against
+    # the shared original fail and the copies of several nodes share one list
+    for m in T.MIXINS:
+        cls = p.cls(m)
+        for f in cls.funcs():
+            for node in walk_own(f.node):
+                shared = None
+                if isinstance(node, ast.Assign) and any(isinstance(t, ast.Attribute) and mangle(m, t.attr) in link_fields(p) for t in node.targets):
+                    for x in ast.walk(node.value):
+                        if isinstance(x, ast.Name) and isinstance(x.ctx, ast.Load) and x.id not in f.params:
+                            r = p.resolve_name(f.module, x.id)
+                            if r is not None and r[0] == "const" and isinstance(r[1], (ast.List, ast.Dict, ast.Set, ast.Call, ast.Tuple)):
+                                shared = x
+                if shared is not None:
+                    ctx.viol("P4", f, node, "the module-level object `%s` is stored in a link field: it becomes part of every such node's "
+                             "state; a pickled/deep-copied tree gets its own copy, so identity tests against `%s` fail there and the "
+                             "copied nodes share one list" % (shared.id, shared.id))
+        ctx.inst("P4", "%s %s" % (cls.module.relpath, m), "link writes scanned", "no shared module-level object stored in a link field")
     lm = p.cls("LightNodeMixin")
     sl = lm.assigns.get("__slots__")
     try:
